@@ -239,8 +239,86 @@ S_DHKT = st.fixed_dictionaries({
     "alt": st.sampled_from(["none", "tokbit", "tokbit", "hdr", "key", "trunc"]), "bit": st.integers(0, 2000)})
 
 
+def run_ibs(ctx, c):
+    """identity-based signatures (B.2.3 - B.2.5): extract, sign (randomised and deterministic), verify, alterations"""
+    x = ctx.x
+    l = c["l"]
+    M = RB.std_params(l)
+    q, p = M["q"], M["p"]
+    n = l // 4
+    P = params_buf(x, l)
+    oid = RB.oid_to_der(c["oid"])
+    OID = x.buf(oid)
+    # trusted party key and its signature of the identifier hash
+    d = dval(c, q, n)
+    Qb = RB.point_to_octets(M, RB.pubkey_calc(M, d))
+    idh = hval(c, "idh", l, q)
+    k0 = int.from_bytes(expand(c["seed"] + "k0", n), "little") % (q - 1) + 1
+    sig0 = RB.sign(M, oid, idh, d, k0)
+    ipriv, ipub = x.out(n), x.out(2 * n)
+    r = x.call("bignIdExtract", ipriv, ipub, P, OID, len(oid), x.buf(idh), x.buf(sig0), x.buf(Qb))
+    if r:
+        raise Fail("bignIdExtract failed on a valid signature: %s" % ename(r))
+    e, R = RB.id_extract(M, oid, idh, sig0, Qb)
+    if int.from_bytes(ipriv.read(), "little") != e or ipub.read() != RB.point_to_octets(M, R):
+        raise Fail("bignIdExtract != model (l=%d)" % l)
+    H = hval(c, "h", l, q)
+    k = int.from_bytes(expand(c["seed"] + "k", n), "little") % (q - 1) + 1
+    tape = mk_tape(c, "rejk", q, p, n, k)
+    isig = x.out(3 * l // 8)
+    r = x.call("bignIdSign", isig, P, OID, len(oid), x.buf(idh), x.buf(H), ipriv, GEN, x.tape(tape, mode=2))
+    if r:
+        raise Fail("bignIdSign failed: %s" % ename(r))
+    ms, _ = RB.id_sign_from_tape(M, oid, idh, H, e, tape + b"\xff" * n)
+    if isig.read() != ms:
+        raise Fail("bignIdSign != model (l=%d h=%s)" % (l, c["h"]))
+    tt = None if c["t"] is None else expand(c["seed"] + "t", c["t"])
+    isig2 = x.out(3 * l // 8)
+    r = x.call("bignIdSign2", isig2, P, OID, len(oid), x.buf(idh), x.buf(H), ipriv, x.buf(tt) if tt is not None else None, len(tt) if tt is not None else 0)
+    if r:
+        raise Fail("bignIdSign2 failed: %s" % ename(r))
+    ms2 = RB.id_sign2(M, oid, idh, H, e, tt)
+    if isig2.read() != ms2:
+        raise Fail("bignIdSign2 != model (l=%d h=%s t=%s): %s vs %s" % (l, c["h"], c["t"], isig2.read().hex(), ms2.hex()))
+    for sg in (ms, ms2):
+        r = x.call("bignIdVerify", P, OID, len(oid), x.buf(idh), x.buf(H), x.buf(sg), ipub, x.buf(Qb))
+        if r:
+            raise Fail("bignIdVerify rejects a fresh identity signature: %s" % ename(r))
+    alt = c["alt"]
+    fs, fH, fid, fpub, fQ = ms, H, idh, ipub.read(), Qb
+    if alt == "sigbit": fs = flip(ms, c["bit"])
+    elif alt == "hbit": fH = flip(H, c["bit"])
+    elif alt == "idbit": fid = flip(idh, c["bit"])
+    elif alt == "pubneg":
+        y = int.from_bytes(fpub[n:], "little"); fpub = fpub[:n] + (p - y).to_bytes(n, "little")
+    elif alt == "qneg":
+        y = int.from_bytes(Qb[n:], "little"); fQ = Qb[:n] + (p - y).to_bytes(n, "little")
+    elif alt == "s1q": fs = ms[:l // 8] + q.to_bytes(n, "little")
+    if RB.pubkey_val(M, fpub) and RB.pubkey_val(M, fQ):
+        mv = RB.id_verify(M, oid, fid, fH, fs, fpub, fQ)
+        r = x.call("bignIdVerify", P, OID, len(oid), x.buf(fid), x.buf(fH), x.buf(fs), x.buf(fpub), x.buf(fQ))
+        if (r == 0) != mv:
+            raise Fail("bignIdVerify verdict %s on alteration %s, model says %s" % (ename(r), alt, mv))
+    # extraction from an altered signature must fail exactly when the model's verification fails
+    bad0 = flip(sig0, c["bit"])
+    r = x.call("bignIdExtract", x.out(n), x.out(2 * n), P, OID, len(oid), x.buf(idh), x.buf(bad0), x.buf(Qb))
+    me = RB.id_extract(M, oid, idh, bad0, Qb)
+    if (r == 0) != (not isinstance(me, str)):
+        raise Fail("bignIdExtract verdict %s on an altered signature, model %s" % (ename(r), me if isinstance(me, str) else "accept"))
+    ctx.cls("ibs_" + alt, "l%d" % l)
+    ctx.nontrivial("ibs", l, alt, c["h"], c["t"])
+    ctx.sample(c)
+
+
+S_IBS = st.fixed_dictionaries({
+    "l": st.sampled_from([128, 192, 256]), "seed": st.binary(min_size=1, max_size=4).map(bytes.hex), "oid": st.sampled_from(OIDS),
+    "d": st.sampled_from(["rnd", "one", "qm1"]), "h": st.sampled_from(["rnd", "rnd", "zero", "q", "max"]), "idh": st.sampled_from(["rnd", "rnd", "zero", "max"]),
+    "rejk": REJ, "t": st.sampled_from([None, 0, 1, 32, 100]), "alt": st.sampled_from(["none", "sigbit", "hbit", "idbit", "pubneg", "qneg", "s1q"]), "bit": st.integers(0, 2000)})
+
+
 def tests(tier):
     return [
         Test("sign", S_SIGN, run_sign, {"quick": 700, "thorough": 14000}, CFG),
         Test("dh_kt", S_DHKT, run_dh_kt, {"quick": 400, "thorough": 8000}, CFG),
+        Test("ibs", S_IBS, run_ibs, {"quick": 300, "thorough": 6000}, CFG),
     ]
